@@ -353,6 +353,32 @@ func (e *Engine) SolveUnit(unitName string, uses []string) []*OblResult {
 		}
 		out = append(out, r)
 	}
+	if reachProbes {
+		// diagnostics (never obligations): is each contract clause evaluated on at least one path that the model
+		// can take? A clause all of whose paths are infeasible was proved vacuously.
+		for _, name := range e.oblOrder {
+			o := e.obls[name]
+			if o.Expect == "sat" || len(o.Paths) == 0 || (o.Kind != "assert" && o.Kind != "ensures" && o.Kind != "invariant" && o.Kind != "call-pre") {
+				continue
+			}
+			r := &OblResult{Name: o.Name + ".reached", Kind: "reach", Src: "the clause is evaluated on a feasible path", Paths: len(o.Paths), Unit: unitName, Status: "cover-vacuous"}
+			for i, p := range o.Paths {
+				if i >= 64 {
+					break
+				}
+				res := solveQuery(stripQuantified(e.buildQuery(&OblPath{PC: p.PC, Goal: "false"}, false, uses)), fastTimeout)
+				r.Time += res.Time
+				if res.Status == "sat" {
+					r.Status = "cover-ok"
+					break
+				}
+				if res.Status != "unsat" {
+					r.Status = "cover-unknown"
+				}
+			}
+			out = append(out, r)
+		}
+	}
 	return out
 }
 
